@@ -15,7 +15,7 @@ P = {
          'Runs the real daemon against generated certificate configurations; the mock CA DER-parses every newOrder/CSR and an independent normaliser (Python idna/ipaddress rules) predicts identifiers; held = no mismatch on the configurations run.',
          'Trusts OpenSSL CSR parsing, Python punycode codec/ipaddress; IDN inputs restricted to scripts with unambiguous lowercasing.', '4/C01'),
  'C02': (EX, 'byte-equality monitors over renewal histories (mock CA body vs file) + storage probe write histories',
-         'Black-box renewal histories with chain lengths changing in both directions, plus scripted write histories through the real storage functions with the file read back after every write.',
+         'Black-box renewal histories with chain lengths changing in both directions (legal PEM layouts, configured file names, same-leaf CAs), concurrent account registrations re-loaded afterwards, plus scripted write histories through the real storage functions with the file read back after every write, also on a file system that fills up.',
          'Trusts the mock CA log of served bodies and SHA-256.', '4/C02'),
  'C03': (FE, 'fault injection at every request position x fault kind, pair-consistency monitor in the post-operation hook and after stop',
          'Enumerates (request position x fault action) single faults (thorough: complete matrix) with and without a pre-existing pair and with kp_reuse on/off, plus random multi-fault sequences; oracle: certificate file parses and leaf SPKI = key file SPKI, untouched-on-early-failure by hashes.',
@@ -24,7 +24,7 @@ P = {
          'Every POST of many flows (registration, renewal, contact update, key roll-over between key types, EAB, forgotten account, badNonce runs) is verified by code sharing nothing with acme_common but OpenSSL; bulk JWS from the probe are verified offline, short ECDSA components counted.',
          'Trusts OpenSSL verification primitives and the mock CA nonce ledger.', '4/C04'),
  'C05': (EX, 'hook recorder variables vs mock-CA-side recomputation from the registered JWK; ordering monitor hook end < challenge POST',
-         'Generated identifier sets (name + wildcard with different challenges, IPs), shuffled authorizations/challenges, all authorization statuses; probe bulk proofs checked against an independent thumbprint.',
+         'Generated identifier sets (name + wildcard with different challenges, IPs), shuffled authorizations/challenges, all authorization statuses, unknown challenge types, processing challenges, several hooks per type (every configured hook must have run), key changes between issuances; probe bulk proofs checked against an independent thumbprint.',
          'Trusts shared CLOCK_MONOTONIC between hookrec and mockca.', '4/C05'),
  'C06': (EX, 'scheduling probe over generated (certificate, key, configuration) triples with closed-form oracle; black-box renewal timing',
          'Thousands of on-disk certificates (notAfter from 1970 to 9999, SAN subsets/supersets/permutations, IDN, IPs) x renew_delay/random_early_renew grids evaluated by the real scheduling function; oracle in exact integer arithmetic with bracketed clock.',
@@ -51,13 +51,13 @@ P = {
          'Modes x umask x user/group (name, number, unset) for key, certificate and account files, creation then rewrite, single-file and split configurations, set-group-ID directories and files left with a foreign owner; probe sweeps for the storage layer.',
          'Runs as root so chown to arbitrary ids works.', '4/C13'),
  'C14': (EX, 'probe dump of the effective configuration vs independent resolver over the raw TOML files',
-         'Generated configuration trees: all presence patterns of each setting at three levels, include graphs with globs/duplicates/cycles, every global option split over files, dangling references and duplicate ids.',
+         'Generated configuration trees: all presence patterns of each setting at three levels (with and without a [global] table), include graphs with globs/duplicates/cycles/symbolic links, every global option split over files, relative directories, dangling references (also on unused accounts) and duplicate ids.',
          'Resolver implements the man page; table-valued globals judged only where replace and merge agree.', '4/C14'),
  'C15': (EX, 'differential monitor: acme_common public API vs values recomputed from hand-parsed SPKI and an independent verifier, by volume',
          'Tens of thousands of fresh keys per EC/EdDSA type, hundreds of RSA keys, every fourth key made by OpenSSL alone and loaded from PEM/DER (RSA exponents other than 65537); rare encodings (leading-zero coordinates, short R/S) counted and required to occur.',
          'Trusts OpenSSL SPKI export and verification.', '4/C15'),
  'C16': (EX, 'real tacd instances probed by an OpenSSL client of the harness; certificate fields parsed from DER',
-         'Random domains (ASCII, IDN, mixed case), digests rendered through the daemon own proof format, 7 key types x 3 digests, TCP/unix listeners, flag/file/stdin inputs, ALPN lists of every shape.',
+         'Random domains (ASCII, IDN, mixed case, names near the length limits), digests rendered through the daemon own proof format (and digests with zero octets), 7 key types x 3 digests, IPv4 / IPv6-literal / unix listeners, flag/file/stdin inputs, ALPN lists of every shape, TLS 1.2-capped validators, many refused clients or reset storms or a second responder before the validating client.',
          'Trusts OpenSSL client handshake reporting; Python punycode for expected names.', '4/C16'),
  'C17': (FE, 'hostile connection histories against the shipped-profile tacd followed by a valid handshake; process liveness monitor',
          'Enumerates ordered selections of up to 4 behaviours from the catalogue (thorough: all 2800), plus abortive closes, odd server names, 40 clients silent for 6.5-35 s and descriptor shortages (responder under RLIMIT_NOFILE 64), TCP and unix listeners, each followed by a valid acme-tls/1 handshake judged by the C16 oracle.',
@@ -66,7 +66,7 @@ P = {
          'Combinations of the three root sources x server chains (valid, unlisted root, other name, expired, not yet valid) x URL by name/IP x root file states, CA bundles named in the hooks\' environment tables, root files withdrawn or replaced while the daemon runs; oracle: a request reaches the CA iff the chain is valid under system store + the roots given at that time.',
          'System trust store assumed not to contain the harness roots.', '4/C18'),
  'C19': (EX, 'configuration fuzzing/mutation with crash, hang and exit-status monitors; period parser vs bignum reference',
-         'Field-by-field mutations of valid configurations, structural hazard catalogue (group cycles, include cycles, zero/huge rate limits, overflowing periods), random period strings against an independent parser.',
+         'Field-by-field mutations of valid configurations, structural hazard catalogue (group cycles, include cycles in every path spelling, zero / huge / 32-bit-boundary rate limits, overflowing periods, long non-ASCII offending lines), stored certificates at start-up, random period strings against an independent parser.',
          'Hang detection relies on the capped limiter sleep of the verification feature.', '4/C19'),
  'C20': (EX, 'mock CA in validating mode (real http-01 file read, real acme-tls/1 handshake) + leftover monitors, default paths exercised in a private mount namespace',
          'Each shipped hook group alone and with git, identifiers of 1..3 labels, 1..3 consecutive issuances, every subset of the documented environment variables set/defaulted, restrictive umasks, validators holding an idle connection or limited to TLS 1.2, http-01 proofs met again after an attempt that broke off.',
